@@ -369,14 +369,14 @@ PROPS = {
     "C20": dict(
         technique="model-based stateful PBT (slice model) + exhaustive small-scope enumeration; invariant over generated token streams; native fuzzing",
         level_text="Generated and exhaustively enumerated operation histories against a slice model (every enqueue/dequeue word up to "
-                   "length 16 quick / 22 thorough, every head offset at the first three growths), and the INDENT/DEDENT/EOF invariant "
+                   "length 16 quick / 22 thorough, every head offset at the first three growths, every growth up to 8192 elements from four head offsets, batches the caller overwrites after PushAll), and the INDENT/DEDENT/EOF invariant "
                    "over generated, mutated and fuzzed inputs. Search, not proof: no counterexample among the cases counted in evidence.",
         level_note="Trusts the slice model, the ANTLR runtime's CommonTokenStream and the verif-tag re-exports (no logic). Empty-container "
                    "Dequeue/Peek/Pop (documented panics) are outside the domain.",
         rule="queue/stack: generated operation bursts (rapid) and exhaustive enqueue/dequeue words decided against a slice model, "
              "sizes compared after every step; non-trivial = at least two buffer growths of which one happened with a wrapped head "
              "(stack: depth >= 3 and >= 6 operations). tokens: arbitrary strings, fragment soups, mutated fixtures, random-indentation "
-             "bodies lexed through the real lexer; non-trivial = at least two INDENT tokens. distinct = distinct serialised cases.",
+             "bodies and scripts of up to 1100 nested option blocks lexed through the real lexer; non-trivial = at least two INDENT tokens. distinct = distinct serialised cases.",
         assumptions=["Dequeue/Peek/Pop on an empty container are documented to panic and are not called",
                      "token balance is observed through the verif-tag hook that re-exports the lexer constructor"],
         subs=[
@@ -385,6 +385,7 @@ PROPS = {
             rapid("tokens", "TestC20Tokens", 5000, 50000),
             enum("queue-words", "TestC20QueueExhaustive", env=dict(quick=dict(VERIF_C20_WORDLEN=16), thorough=dict(VERIF_C20_WORDLEN=22))),
             enum("queue-growth-offsets", "TestC20QueueGrowthOffsets"),
+            enum("queue-growth-ladder", "TestC20QueueGrowthLadder"),
             fuzz("tokens", "FuzzC20Tokens", 60),
         ],
     ),
